@@ -1,6 +1,7 @@
 import Driver.Util
 import SonicModel.Impl.Simd
 import SonicModel.Impl.Block
+import SonicModel.Impl.StrSkip
 namespace Driver
 open Sonic Sonic.Simd
 
@@ -45,6 +46,15 @@ def c17 (args : List String) : String :=
             if whole then go fuel (data.drop 64) s' (eaten + 64)
             else s!"r=none l={s'.l} rr={s'.r} pi={hexNat17 s'.prevIn.toNat} pe={hexNat17 s'.prevEsc.toNat}"
       go (t.size / 64 + 2) t.toList Sonic.Block.St.init 0
+    | none => "bad-args"
+  | ["ss"] => match Sonic.StrSkip.skipString 1 [] 0#32 0 false with
+    | some (n, e) => s!"r={n} esc={if e then 1 else 0}"
+    | none => "r=none"
+  | ["ss", ht] => match unhex ht with
+    | some t =>
+      match Sonic.StrSkip.skipString (t.size / 32 + 1) t.toList 0#32 0 false with
+      | some (n, e) => s!"r={n} esc={if e then 1 else 0}"
+      | none => "r=none"
     | none => "bad-args"
   | ["d2i", a, need] => match unhex a, need.toNat? with
     | some a, some need =>
